@@ -478,6 +478,9 @@ def r8_per_function_points(repo: Repo, rep):
 
 
 def run(repo: Repo, rep):
+    from .generic import g_arg_constructor_parameters
+    g_arg_constructor_parameters(repo, rep, lambda m: ".conditions." in m, floor=10,
+                                 why="a condition that ignores a constructor argument (weight, norm, root, data functions, parameter) computes another loss than documented")
     r8_per_function_points(repo, rep)
     r1234_forward(repo, rep)
     r3b_data_loop(repo, rep)
@@ -490,6 +493,8 @@ def run(repo: Repo, rep):
     r3_selection(repo, rep)
     from .c08 import r2_fix_points_order  # "the model outputs at those rows", whatever the variable order of the sampler's space
     r2_fix_points_order(repo, rep)
+    from .c13 import r6_no_alias  # conditions re-wrap residual and data functions: values bound with set_default must survive the re-wrap
+    r6_no_alias(repo, rep)
     from .c13 import r2_r3_mapping, r4_defaults_alignment  # residual and data functions receive their arguments by name; declared defaults belong to their own parameter
     r2_r3_mapping(repo, rep)
     r4_defaults_alignment(repo, rep)
